@@ -294,7 +294,7 @@ impl<'a> Context<'a> {
 
     if let Some(file_ignore) = self.file_ignore_directive.as_ref() {
       for (unused_code, _status) in
-        file_ignore.codes().iter().filter(is_unused_code)
+        file_ignore.sorted_codes().into_iter().filter(is_unused_code)
       {
         let d = self.create_diagnostic(
           Some(self.create_diagnostic_range(file_ignore.range())),
@@ -315,7 +315,7 @@ impl<'a> Context<'a> {
       // file-level directive.
 
       for (unused_code, _status) in
-        line_ignore.codes().iter().filter(is_unused_code)
+        line_ignore.sorted_codes().into_iter().filter(is_unused_code)
       {
         let d = self.create_diagnostic(
           Some(self.create_diagnostic_range(line_ignore.range())),
@@ -345,8 +345,9 @@ impl<'a> Context<'a> {
 
     if let Some(file_ignore) = self.file_ignore_directive.as_ref() {
       for unknown_rule_code in file_ignore
-        .codes()
-        .keys()
+        .sorted_codes()
+        .into_iter()
+        .map(|(code, _status)| code)
         .filter(|code| !enabled_rules.contains(code.as_str()))
       {
         let d = self.create_diagnostic(
@@ -364,8 +365,9 @@ impl<'a> Context<'a> {
 
     for line_ignore in self.line_ignore_directives.values() {
       for unknown_rule_code in line_ignore
-        .codes()
-        .keys()
+        .sorted_codes()
+        .into_iter()
+        .map(|(code, _status)| code)
         .filter(|code| !enabled_rules.contains(code.as_str()))
       {
         let d = self.create_diagnostic(
